@@ -1128,13 +1128,13 @@ func init() {
 	Register(Spec[c14Desc]{
 		ID: "C14", Suite: "extract", CoqImports: []string{"Check.C14"},
 		CoqType: "list (string * string) * list (list (string * string))", CoqRun: "Check.C14.run_extract",
-		Quick: 1000, Thorough: 20000,
+		Quick: 1000, Thorough: 10000,
 		Corpus: c14ExtractCorpus, Gen: c14ExtractGen, Run: c14ExtractRun, Coq: c14ExtractCoq, Shrink: c14ExtractShrink,
 	})
 	Register(Spec[c14ValIn]{
 		ID: "C14", Suite: "validate", CoqImports: []string{"Check.C14"},
 		CoqType: "list (string * string) * list (string * option string)", CoqRun: "Check.C14.run_validate",
-		Quick: 800, Thorough: 20000,
+		Quick: 800, Thorough: 10000,
 		Corpus: c14ValidateCorpus, Exhaustive: c14ValidateExhaustive, Gen: c14ValidateGen,
 		Run: c14ValidateRun, Coq: c14ValidateCoq,
 	})
